@@ -130,6 +130,9 @@ class EvalCtx(object):
                 cname = value.get_attr(self, ast_attr.attr)
         elif node_type is ImportedName:
             iname = node  # type: ImportedName # type: ignore[assignment]
+            if any(r is iname for r in result):
+                # modules importing the name from each other: the chain ends here
+                return result
             result.append(iname)
             cname = iname.resolve(self)
         else:
